@@ -76,6 +76,15 @@ def handle (fam : String) (c _impl : Json) : P Json := do
     | "drop" =>
       let o ← look (← natF ev "o")
       st := (st.step (.drop o)).1
+    | "regcheck" =>
+      -- the implementation's own registry, inspected after the step: `registry_exact` fails on the real state
+      let stale ← listF (asList asNat) ev "stale"
+      let missing ← listF asNat ev "missing"
+      let desc := (fieldD ev "desc" Json.null).compress
+      if !stale.isEmpty then
+        return verdict false s!"event {k} after {desc}: the tracker's registry holds live objects under identities that are not their storage (object, identity): {stale} — a vector whose storage is later allocated at such an identity is refused although it shares with nothing" (toJson k)
+      if !missing.isEmpty then
+        return verdict false s!"event {k} after {desc}: live objects {missing} are not registered under their own (non-empty) storage — a second vector over that storage could be written without refusal" (toJson k)
     | "fresh" =>
       -- the object was just returned by an operation that must produce unshared storage
       -- (fresh vector, copy, slice, operation result, table column)
